@@ -1603,6 +1603,17 @@ class TypeSystem:  # noqa: PLR0904
             sub_class: subclass
         """
         self._graph.add_edge(super_class, sub_class)
+        # The memoised queries below are answered from the inheritance graph, so an
+        # answer computed before this edge existed must not be served afterwards.
+        for cached_query in (
+            TypeSystem.get_subclasses,
+            TypeSystem.get_superclasses,
+            TypeSystem.is_subclass,
+            TypeSystem.is_subtype,
+            TypeSystem.is_maybe_subtype,
+            TypeSystem.subtype_distance,
+        ):
+            cached_query.cache_clear()
 
     @functools.lru_cache(maxsize=1024)
     def get_subclasses(self, klass: TypeInfo) -> OrderedSet[TypeInfo]:
